@@ -366,5 +366,27 @@ def searchToU (g : Graph P S α) (max inf : α) (origins : List P) (dest : P) (f
   | none => .stuck
   | some s => runHU g max (some dest) fuel s
 
+/-! ### `ComputeAccessibility`: `PointDistances` + `FillCountsAndDistancesFromPaths` (after fix
+C30-accessibility-keeps-node-distances)
+
+For every recorded point, every segment of its `BuildPath` is walked; a point of such a segment that the search did
+not reach itself gets a geometrically interpolated distance (opaque here: `none`), reached points keep the
+distance the search found. `segPoints seg` = the points of the path between the segment's two indices. -/
+
+/-- points that get an interpolated value: on a segment of some recorded route, not reached by the search -/
+def interpolatedPoints (t : Table P S α) (segPoints : S → List P) : List P :=
+  dedup ((t.flatMap fun (p, _) =>
+    match buildRoute t (t.length + 1) p [] with
+    | some (_, steps) => steps.flatMap fun st => segPoints st.via.seg
+    | none => []).filter fun q => (tget t q).isNone)
+
+/-- the distance map `ComputeAccessibility` returns: `some d` = the search's distance, `none` = interpolated -/
+def accessibility (t : Table P S α) (segPoints : S → List P) : List (P × Option α) :=
+  t.map (fun (p, e) => (p, some e.dist)) ++ (interpolatedPoints t segPoints).map (fun q => (q, none))
+
+def accGet : List (P × Option α) → P → Option (Option α)
+  | [], _ => none
+  | (k, v) :: rest, p => if k = p then some v else accGet rest p
+
 end
 end B6.Model.Dijkstra
